@@ -69,6 +69,15 @@ def gen_points(g):
         F = g.integers(0, 5, (n, d)).astype(float); F[:, int(g.integers(d))] *= float(g.choice([1e-9, 1e-10, 1e-12]))
     else:
         base = g.normal(size=(max(1, n // 3), d)); F = base[g.integers(0, len(base), n)]
+    if cls in ("gauss", "dups", "tinyrange") and n >= 2 and g.random() < 0.3:
+        # last-place twins: a point that differs from another one by a single unit in the last place of one coordinate
+        k_ = int(g.integers(1, max(2, n // 2)))
+        for _ in range(k_):
+            i_, j_ = int(g.integers(n)), int(g.integers(n)); c_ = int(g.integers(d))
+            if abs(F[j_, c_]) < 1e-200:
+                continue      # next to zero the neighbour is subnormal: rescaling by a power of two would no longer be exact
+            F[i_] = F[j_]; F[i_, c_] = numpy.nextafter(F[j_, c_], numpy.inf if g.random() < 0.5 else -numpy.inf)
+        cls += "/points one unit in the last place apart"
     wt = g.choice([-2.5, -1.0, 1.0, 2.5, 0.5], d)
     # integer-valued point sets are also handed over in the integer / single-precision dtypes a caller may hold them in
     if numpy.all(F == numpy.floor(F)) and numpy.abs(F).max() < 15 and g.random() < 0.4:
